@@ -265,7 +265,14 @@ func runSdSchedule(pool bool, plans []sdPlan, expire bool, oneConn bool) (res sd
 		for i := range plans {
 			release(i)
 		}
-		rig.s.Close()
+		// (a Close that cannot get the server's mutex must not hold the whole run up: it has been, or will be,
+		// reported by the steps that look at Shutdown and Close)
+		closed := make(chan struct{})
+		go func() { rig.s.Close(); close(closed) }()
+		select {
+		case <-closed:
+		case <-time.After(3 * time.Second):
+		}
 	}()
 	got := make([]bool, n)
 	readOne := func(i int, wait time.Duration) {
